@@ -9,6 +9,7 @@
 //!     kind  o = own wallet coin (key index 1+i, listed in `utxos`, gets signed) | f = somebody else's coin
 //!     type  TRUE script type of the spent output: w p2wpkh | t p2tr | k p2pkh | s p2sh-p2wpkh
 //!     pres  n = non_witness_utxo (previous tx) supplied | u = only witness_utxo | b = both
+//!           x = a forged previous tx (wrong txid) whose output is the claimed script
 //!     claim (script in the witness_utxo) t = the true script | w = "p2wpkh of the same key"
 use super::{foreign_key, key_script, to_dp, NET};
 use crate::common::*;
@@ -153,6 +154,13 @@ impl C08Psbt {
             if inp.pres == 'n' || inp.pres == 'b' {
                 psbt.inputs[i].non_witness_utxo = Some(prev_txs[i].clone());
             }
+            if inp.pres == 'x' {
+                // a forged previous tx: same shape, but its output is the claimed script (its txid does not match the outpoint)
+                let mut fake = prev_txs[i].clone();
+                fake.output[0] = claimed.clone();
+                fake.lock_time = LockTime::from_consensus(1);
+                psbt.inputs[i].non_witness_utxo = Some(fake);
+            }
             if inp.pres == 'u' || inp.pres == 'b' {
                 psbt.inputs[i].witness_utxo = Some(claimed);
             }
@@ -211,6 +219,9 @@ impl C08Psbt {
             Ok(Ok(signed)) => {
                 let n_sigs = signed.map(|p| p.inputs.iter().filter(|i| i.final_script_witness.is_some()).count()).unwrap_or(0);
                 co.tags.insert("wd:signed".into());
+                if unknown && !approve {
+                    co.violations.push(Violation { kind: "unapproved-destination-signed".into(), desc: format!("SignWithdrawal signed ({} witnesses) although the tx pays an unknown destination and the approver declined", n_sigs), at });
+                }
                 // ---- monitor: judged by the TRUE type of the coins
                 let legacy: Vec<usize> = ins.iter().enumerate().filter(|(_, i)| !"wt".contains(i.ty)).map(|(k, _)| k).collect();
                 if fund && !legacy.is_empty() {
@@ -259,6 +270,8 @@ impl Group for C08Psbt {
             c("wd 1 n 0 o:w:n:t,f:w:n:t|wd 1 n 0 o:w:n:t,f:k:n:t|wd 1 n 0 o:w:n:t,f:k:u:w"),
             // not funding a channel: a legacy input is fine
             c("wd 0 n 0 o:w:n:t,f:k:n:t|wd 0 p 1 o:w:n:t|wd 0 n 1 o:w:n:t"),
+            // a forged previous tx (txid mismatch) claiming a p2wpkh output for a legacy coin; both utxo forms disagreeing
+            c("wd 1 n 0 o:w:n:t,f:k:x:w|wd 1 n 0 o:w:n:t,f:k:b:w"),
         ]
     }
     fn gen_case(&self, rng: &mut Rng, _tier: Tier) -> Vec<String> {
@@ -273,8 +286,8 @@ impl Group for C08Psbt {
             for i in 0..n_in {
                 let own = i == 0 || rng.chance(1, 3);
                 let ty = *rng.pick(&['w', 'w', 'w', 't', 'k', 's']);
-                let pres = *rng.pick(&['n', 'n', 'n', 'u', 'u', 'b']);
-                let claim = if pres == 'n' { 't' } else if rng.chance(1, 2) { 'w' } else { 't' };
+                let pres = *rng.pick(&['n', 'n', 'n', 'u', 'u', 'b', 'x']);
+                let claim = if pres == 'n' { 't' } else if rng.chance(1, 2) || pres == 'x' { 'w' } else { 't' };
                 ins.push(format!("{}:{}:{}:{}", if own { 'o' } else { 'f' }, ty, pres, claim));
             }
             ops.push(format!("wd {} {} {} {}", if fund { 1 } else { 0 }, if approve { 'p' } else { 'n' }, if unknown { 1 } else { 0 }, ins.join(",")));
